@@ -437,9 +437,12 @@ class Machine(Interp):
         d = SDict()
         for k, v in out:
             k = self.force(k, n)
-            if not (is_concrete_scalar(k) or isinstance(k, tuple)):
-                raise Unsupported("dict comprehension with symbolic key", n)
-            d.d[self.dict_key(k)] = v
+            if isinstance(d, SADict) or not (is_concrete_scalar(k) or isinstance(k, tuple)):
+                if not isinstance(k, (Sym, int, str)):
+                    raise Unsupported("dict comprehension with key %r" % (k,), n)
+                self.setitem(d, k, v, n)  # association list for symbolic keys
+            else:
+                d.d[self.dict_key(k)] = v
         return d
 
     def unbounded_source(self, src):
@@ -674,6 +677,9 @@ class Machine(Interp):
         if isinstance(o, AbstractObj):
             if name in o.fields:
                 return o.fields[name]
+            for cc in S.CONTRACTS.values():
+                if cc.target == "iface:%s.%s" % (o.iface, name) and getattr(cc, "attribute", False):
+                    return self.call_abstract(o, name, [], {}, node)
             return NativeFn("%s.%s" % (o.iface, name), lambda mach, args, kwargs, node, o=o, name=name: mach.call_abstract(o, name, args, kwargs, node))
         if type(o).__name__ == "SArr":
             from . import npmodel
@@ -758,6 +764,8 @@ class Machine(Interp):
             c, m = f.cls.find_method("__call__")
             if m is not None:
                 return self.call_method(f, "__call__", args, kwargs, node)
+        if isinstance(f, AbstractObj):
+            return self.call_abstract(f, "__call__", args, kwargs, node)
         raise Unsupported("call of %r" % (f,), node)
 
     def call_method(self, o, name, args, kwargs, node=None):
@@ -803,9 +811,9 @@ class Machine(Interp):
 
     def call_function(self, f, args, kwargs, node=None):
         # modular reasoning: use the callee's contract when one is registered for modular use
-        if self.registry is not None and self.modular and isinstance(f.node, ast.FunctionDef):
+        if self.registry is not None and isinstance(f.node, ast.FunctionDef):
             c = self.registry.modular_contract(f.qual)
-            if c is not None and c.key not in self.skip_contract_for:
+            if c is not None and c.key not in self.skip_contract_for and (self.modular or getattr(c, "always_modular", False)):
                 return self.apply_contract(c, f, args, kwargs, node)
         if self.depth > MAX_CALL_DEPTH:
             raise Unsupported("call depth", node)
@@ -823,6 +831,10 @@ class Machine(Interp):
                 self.exec_block(strip_docstring(f.node.body), env)
             except _Return as r:
                 return r.v
+            except PyRaise as ex:
+                if not hasattr(ex, "where") and f.module.path.startswith(self.repo.root):
+                    ex.where = f.node.name  # innermost repository function (stable obligation names)
+                raise
             return None
         finally:
             self.depth -= 1
@@ -1527,7 +1539,12 @@ class Machine(Interp):
             # ghost-state update written as ordinary (interpreted) code
             self.call_function(eff, [s], {}, node)
         rt = getattr(c, "returns", None)
-        result = self.fresh(rt, "ret.%s.%s" % (o.iface, name), getattr(self, "shape", None)) if rt is not None else None
+        mk = self.registry.contract_func(c, "make_result")
+        if mk is not None:
+            # the result is computed by (interpreted) specification code, e.g. from ghost state
+            result = self.call_function(mk, [s], {}, node)
+        else:
+            result = self.fresh(rt, "ret.%s.%s" % (o.iface, name), getattr(self, "shape", None)) if rt is not None else None
         if ens is not None:
             self.in_spec += 1
             try:
@@ -1535,7 +1552,11 @@ class Machine(Interp):
             finally:
                 self.in_spec -= 1
             self.assume_clauses(r)
-        self.abstract_returns.append((o.iface, name, result))
+        aft = self.registry.contract_func(c, "after")
+        if aft is not None:
+            self.call_function(aft, [s, result], {}, node)
+        if mk is None:
+            self.abstract_returns.append((o.iface, name, result))
         gs = getattr(self, "ghost_state", None)
         if gs is not None and "log" in gs:
             gs["log"].items.append(tuple(["%s.%s" % (o.iface, name)] + [locs[p] for p in rest] + [result]))
